@@ -195,16 +195,198 @@ theorem C09_ready_current (env : Env) (s : St) (h : Inv s) (hr : isReady env s =
 /-- **Discard.** In a state satisfying the invariant whose content path (if any) exists, if piece
     hashes are present after an operation other than `generate`, they are the ones present
     before, and the operation changed neither the content path, the listed files and their
-    sizes, the piece length, nor a filter list.  Contrapositive: whenever the set of files, their
-    sizes, the filters or the piece length change, previously computed hashes are discarded. -/
+    sizes, the piece length, nor any of the four filter lists.  Contrapositive: whenever the set
+    of files, their sizes, the filters or the piece length change, previously computed hashes are
+    discarded.  The operations include every edit of a filter list — slice and index assignment
+    (so `torrent.exclude_globs = […]`), `append`, `extend`, `+=` on the list and on the
+    attribute, `del`, `clear`, re-assigning the value the list already has — on all four lists,
+    with any items, duplicates included (no exclusion for D09d any more: fix e62ce6d). -/
 theorem C09_pieces_survive_only_unchanged (env : Env) (s : St) (op : Op) (h : Inv s)
     (hex : PathEx env s) (hop : op ≠ .generate) (g : Ghost)
     (hg : (apply env s op).1.pieces = some g) :
     s.pieces = some g ∧ (apply env s op).1.path = s.path ∧
     (apply env s op).1.content = s.content ∧ (apply env s op).1.pl = s.pl ∧
-    (apply env s op).1.exGlobs = s.exGlobs ∧ (apply env s op).1.inGlobs = s.inGlobs := by
-  obtain ⟨a, b, c, d, e, f⟩ := apply_same h env hex op hop g hg
-  exact ⟨by rw [← a]; exact hg, b, c, d, e, f⟩
+    (apply env s op).1.exGlobs = s.exGlobs ∧ (apply env s op).1.inGlobs = s.inGlobs ∧
+    (apply env s op).1.exRegexs = s.exRegexs ∧ (apply env s op).1.inRegexs = s.inRegexs := by
+  obtain ⟨a, b, c, d, e, f, g', h'⟩ := apply_same h env hex op hop g hg
+  exact ⟨by rw [← a]; exact hg, b, c, d, e, f, g', h'⟩
+
+/-- **An accepted edit of a filter list discards the hashes** (the callback `_filters_changed`
+    re-runs `path = path` / `files = files`, which pops `pieces`), whatever the edit leaves in the
+    list — also when it leaves the list as it was (`x = x`, `append` of a present pattern). -/
+theorem C09_filter_edit_discards (env : Env) (s : St) (h : Inv s) (hex : PathEx env s) (inc : Bool) :
+    (∀ l, (filtersChanged env (putGlobs s inc l)).1.pieces = none) ∧
+    (∀ l, (filtersChanged env (putRxs s inc l)).1.pieces = none) :=
+  ⟨fun l => put_none env _ (putGlobs_ok env inc) h hex l,
+   fun l => put_none env _ (putRxs_ok env inc) h hex l⟩
+
+/-! ### slice and index assignment on the filter lists (`MonitoredList.__setitem__`, fix e62ce6d) -/
+
+/-- **The re-adding loop is first-occurrence-wins de-duplication**: `ML.readd` (the code's loop
+    through `_filter_func`) is the specification `dedupFirst`; the result has no duplicates, has
+    exactly the members of the assigned list, and a duplicate-free list is left as it is. -/
+theorem C09_readd_spec {α : Type} [DecidableEq α] (l : List α) :
+    ML.readd l = dedupFirst l ∧ (ML.readd l).Nodup ∧ (∀ y, y ∈ ML.readd l ↔ y ∈ l) ∧
+    (l.Nodup → ML.readd l = l) := by
+  rw [readd_eq_dedupFirst]
+  exact ⟨rfl, nodup_dedupFirst l, mem_dedupFirst l, dedupFirst_of_nodup l⟩
+
+/-- **A rejected item changes nothing.**  If one of the new items of a slice assignment (so of
+    `torrent.exclude_regexs = vs`), the item of an index assignment or of `append` is not a valid
+    regular expression, the operation raises `re.error` and the state is exactly the state before
+    (list, files, hashes); an index assignment with a valid item and an index out of range
+    raises `IndexError` and changes nothing. -/
+theorem C09_filter_assign_rejected (env : Env) (s : St) (inc : Bool) :
+    (∀ a b vs, vs.all Rx.valid = false →
+      apply env s (.rx inc (.setSlice a b vs)) = (s, .err .regex)) ∧
+    (∀ i v, Rx.valid v = false → apply env s (.rx inc (.setIndex i v)) = (s, .err .regex)) ∧
+    (∀ v, Rx.valid v = false → apply env s (.rx inc (.append v)) = (s, .err .regex)) ∧
+    (∀ i v, Rx.valid v = true → ML.pyIndex (getRxs s inc).length i = none →
+      apply env s (.rx inc (.setIndex i v)) = (s, .err .index)) ∧
+    (∀ i v, ML.pyIndex (getGlobs s inc).length i = none →
+      apply env s (.glob inc (.setIndex i v)) = (s, .err .index)) := by
+  refine ⟨fun a b vs hv => ?_, fun i v hv => ?_, fun v hv => ?_, fun i v hv hi => ?_, fun i v hi => ?_⟩
+  · simp [apply, applyL, setSliceL, hv]
+  · simp [apply, applyL, setIndexL, hv]
+  · simp [apply, applyL, appendL, hv]
+  · simp [apply, applyL, setIndexL, hv, hi]
+  · simp [apply, applyL, setIndexL, hi]
+
+/-- **An accepted slice assignment** `lst[a:b] = vs` (all items valid; a glob list accepts every
+    item): the list afterwards is the spliced list with later duplicates dropped — duplicates
+    among the new items and items that are already in the part of the list that stays —, the
+    other three lists are untouched, and everything else is what the callback makes of it. -/
+theorem C09_filter_assign (env : Env) (s : St) (inc : Bool) (a : Nat) (b : Option Nat) :
+    (∀ vs, apply env s (.glob inc (.setSlice a b vs)) =
+        filtersChanged env (putGlobs s inc (dedupFirst (ML.spliced (getGlobs s inc) a b vs))) ∧
+      getGlobs (apply env s (.glob inc (.setSlice a b vs))).1 inc =
+        dedupFirst (ML.spliced (getGlobs s inc) a b vs)) ∧
+    (∀ vs, vs.all Rx.valid = true →
+      apply env s (.rx inc (.setSlice a b vs)) =
+        filtersChanged env (putRxs s inc (dedupFirst (ML.spliced (getRxs s inc) a b vs))) ∧
+      getRxs (apply env s (.rx inc (.setSlice a b vs))).1 inc =
+        dedupFirst (ML.spliced (getRxs s inc) a b vs)) := by
+  constructor
+  · intro vs
+    have e : apply env s (.glob inc (.setSlice a b vs)) =
+        filtersChanged env (putGlobs s inc (dedupFirst (ML.spliced (getGlobs s inc) a b vs))) := by
+      simp [apply, applyL, setSliceL, readd_eq_dedupFirst]
+    exact ⟨e, by rw [e]; exact get_changed env _ _ (globs_lens inc) s _⟩
+  · intro vs hv
+    have e : apply env s (.rx inc (.setSlice a b vs)) =
+        filtersChanged env (putRxs s inc (dedupFirst (ML.spliced (getRxs s inc) a b vs))) := by
+      simp [apply, applyL, setSliceL, readd_eq_dedupFirst, hv]
+    exact ⟨e, by rw [e]; exact get_changed env _ _ (rxs_lens inc) s _⟩
+
+/-- **An accepted index assignment** `lst[i] = v`: the item at (Python) position `i` is replaced
+    and later duplicates are dropped (so assigning an item that is elsewhere in the list shortens
+    the list instead of storing `None`). -/
+theorem C09_filter_assign_index (env : Env) (s : St) (inc : Bool) (i : Int) (j : Nat) :
+    (∀ v, ML.pyIndex (getGlobs s inc).length i = some j →
+      getGlobs (apply env s (.glob inc (.setIndex i v))).1 inc =
+        dedupFirst ((getGlobs s inc).set j v)) ∧
+    (∀ v, Rx.valid v = true → ML.pyIndex (getRxs s inc).length i = some j →
+      getRxs (apply env s (.rx inc (.setIndex i v))).1 inc = dedupFirst ((getRxs s inc).set j v)) := by
+  constructor
+  · intro v hi
+    have e : apply env s (.glob inc (.setIndex i v)) =
+        filtersChanged env (putGlobs s inc (dedupFirst ((getGlobs s inc).set j v))) := by
+      simp [apply, applyL, setIndexL, readd_eq_dedupFirst, hi]
+    rw [e]; exact get_changed env _ _ (globs_lens inc) s _
+  · intro v hv hi
+    have e : apply env s (.rx inc (.setIndex i v)) =
+        filtersChanged env (putRxs s inc (dedupFirst ((getRxs s inc).set j v))) := by
+      simp [apply, applyL, setIndexL, readd_eq_dedupFirst, hi, hv]
+    rw [e]; exact get_changed env _ _ (rxs_lens inc) s _
+
+/-- **The filter lists stay well formed**: a fresh `Torrent()` has duplicate-free filter lists
+    whose regex lists hold only valid patterns, and *every* operation — raising or not, with any
+    arguments, no hypothesis — keeps that (D09d left `[None]` in a list). -/
+theorem C09_filters_ok_init : FiltersOk Attrs.init := by decide
+
+theorem C09_filters_ok_step (env : Env) (s : St) (op : Op) (h : FiltersOk s) :
+    FiltersOk (apply env s op).1 :=
+  apply_filtersOk h env op
+
+theorem C09_filters_ok_history (env : Env) (ops : List Op) :
+    FiltersOk (run env Attrs.init ops) := by
+  suffices ∀ s, FiltersOk s → FiltersOk (run env s ops) from this _ C09_filters_ok_init
+  induction ops with
+  | nil => intro s h; exact h
+  | cons op ops ih => intro s h; exact ih _ (apply_filtersOk h env op)
+
+/-- Only an edit of a filter list changes a filter list. -/
+theorem C09_filters_only_by_edit (env : Env) (s : St) (op : Op) (hg : ∀ inc o, op ≠ .glob inc o)
+    (hr : ∀ inc o, op ≠ .rx inc o) :
+    (apply env s op).1.exGlobs = s.exGlobs ∧ (apply env s op).1.inGlobs = s.inGlobs ∧
+    (apply env s op).1.exRegexs = s.exRegexs ∧ (apply env s op).1.inRegexs = s.inRegexs :=
+  apply_filt env s op hg hr
+
+/-- **Re-assigning the value a list already has** (`torrent.exclude_globs = torrent.exclude_globs`,
+    `lst[:] = lst`, or assigning a list equal to the current one a second time — the case the
+    thorough tier found before fix e62ce6d): in a state with well-formed filter lists this is
+    exactly one run of the callback; no list changes (and, by `C09_filter_edit_discards`, the
+    hashes are dropped). -/
+theorem C09_filter_reassign_same (env : Env) (s : St) (h : FiltersOk s) (inc : Bool) :
+    apply env s (.glob inc .assignSelf) = filtersChanged env s ∧
+    apply env s (.glob inc (.setSlice 0 none (getGlobs s inc))) = filtersChanged env s ∧
+    apply env s (.rx inc .assignSelf) = filtersChanged env s ∧
+    apply env s (.rx inc (.setSlice 0 none (getRxs s inc))) = filtersChanged env s := by
+  rw [filtersOk_iff] at h
+  have hg : putGlobs s inc (ML.readd (ML.spliced (getGlobs s inc) 0 none (getGlobs s inc))) = s := by
+    rw [spliced_self, readd_eq_dedupFirst, dedupFirst_of_nodup _ (h.1 inc).1]
+    unfold putGlobs getGlobs; cases inc <;> rfl
+  have hr : putRxs s inc (ML.readd (ML.spliced (getRxs s inc) 0 none (getRxs s inc))) = s := by
+    rw [spliced_self, readd_eq_dedupFirst, dedupFirst_of_nodup _ (h.2 inc).1]
+    unfold putRxs getRxs; cases inc <;> rfl
+  have hv : (getRxs s inc).all Rx.valid = true := (h.2 inc).2
+  refine ⟨?_, ?_, ?_, ?_⟩
+  · simp only [apply, applyL, setSliceL]; simp [hg]
+  · simp only [apply, applyL, setSliceL]; simp [hg]
+  · simp only [apply, applyL, setSliceL, hv]; simp [hr]
+  · simp only [apply, applyL, setSliceL, hv]; simp [hr]
+
+/-- **`torrent.exclude_globs += vs` is `extend(vs)`** followed — if `extend` did not raise — by one
+    more run of the callback (the setter receives the list itself: former finding D09d, where
+    this left `[None]`).  The lists afterwards are those `extend` left. -/
+theorem C09_filter_iadd_attr (env : Env) (s : St) (h : FiltersOk s) (inc : Bool) :
+    (∀ vs, apply env s (.glob inc (.iaddAttr vs)) =
+      if (apply env s (.glob inc (.extend vs))).2 = .ok
+      then filtersChanged env (apply env s (.glob inc (.extend vs))).1
+      else apply env s (.glob inc (.extend vs))) ∧
+    (∀ vs, apply env s (.rx inc (.iaddAttr vs)) =
+      if (apply env s (.rx inc (.extend vs))).2 = .ok
+      then filtersChanged env (apply env s (.rx inc (.extend vs))).1
+      else apply env s (.rx inc (.extend vs))) := by
+  constructor
+  · intro vs
+    have h' := C09_filters_ok_step env s (.glob inc (.extend vs)) h
+    have e := (C09_filter_reassign_same env _ h' inc).1
+    by_cases hok : (apply env s (.glob inc (.extend vs))).2 = .ok
+    · rw [if_pos hok, ← e]
+      simp only [apply] at hok ⊢
+      rw [iaddAttr_eq]
+      simp only [applyL] at hok ⊢
+      rw [if_pos hok]
+    · rw [if_neg hok]
+      simp only [apply] at hok ⊢
+      rw [iaddAttr_eq]
+      simp only [applyL] at hok ⊢
+      rw [if_neg hok]
+  · intro vs
+    have h' := C09_filters_ok_step env s (.rx inc (.extend vs)) h
+    have e := (C09_filter_reassign_same env _ h' inc).2.2.1
+    by_cases hok : (apply env s (.rx inc (.extend vs))).2 = .ok
+    · rw [if_pos hok, ← e]
+      simp only [apply] at hok ⊢
+      rw [iaddAttr_eq]
+      simp only [applyL] at hok ⊢
+      rw [if_pos hok]
+    · rw [if_neg hok]
+      simp only [apply] at hok ⊢
+      rw [iaddAttr_eq]
+      simp only [applyL] at hok ⊢
+      rw [if_neg hok]
 
 /-- The side condition of `C09_pieces_survive_only_unchanged` is itself an invariant of every
     operation under an unchanging file system (and holds for a fresh `Torrent()`). -/
@@ -296,5 +478,43 @@ example :
     ¬ AllOk exEnv exS ops ∧ AllOkC exEnv exS ops ∧ ¬ Inv (run exEnv exS (ops.take 2)) ∧
     Inv (run exEnv exS (ops.take 3)) ∧ (run exEnv exS ops).pieces.isSome = true := by decide
 example : ∃ size, ¬ 2 * size ≤ maxPieces size ∧ 16384 < rawPieceSize size := ⟨2 ^ 24, by decide⟩
+
+/-! ### non-vacuity of the filter-list theorems (concrete lists and histories) -/
+
+example : ML.readd [1, 2, 1, 3, 2] = [1, 2, 3] := by decide
+/-- `l = [1, 2, 3]; l[1:] = [3, 1, 4]` leaves `[1, 3, 4]` (the assigned `1` is already there) -/
+example : ML.readd (ML.spliced [1, 2, 3] 1 none [3, 1, 4]) = [1, 3, 4] := by decide
+example : ML.pyIndex 3 (-1) = some 2 ∧ ML.pyIndex 3 3 = none ∧ ML.pyIndex 3 (-4) = none := by decide
+
+/-- the history the thorough tier found before fix e62ce6d: `exclude_regexs = ['e\\.']`, hash,
+    `exclude_regexs = ['e\\.']` again — the list is unchanged (not `[None]`), the hashes are
+    dropped, both invariants hold -/
+example :
+    let r := Rx.lit "e."
+    let s1 := run exEnv exS [.rx false (.setSlice 0 none [r]), .generate]
+    let s2 := (apply exEnv s1 (.rx false (.setSlice 0 none [r]))).1
+    s1.pieces.isSome = true ∧ s1.exRegexs = [r] ∧ s2.exRegexs = [r] ∧ s2.pieces = none ∧
+    FiltersOk s2 ∧ Inv s2 := by decide +kernel
+
+/-- the witness of former finding D09d: `exclude_globs += ['*.tmp']` after hashing leaves
+    `['*.tmp']`; `include_regexs += [r, '(']` raises `re.error` with `r` kept and applied -/
+example :
+    let s1 := run exEnv exS [.generate]
+    let a := apply exEnv s1 (.glob false (.iaddAttr [.suffix ".tmp"]))
+    let b := apply exEnv s1 (.rx true (.iaddAttr [.pre "f", .invalid "("]))
+    a.1.exGlobs = [.suffix ".tmp"] ∧ a.2 = .ok ∧ a.1.pieces = none ∧
+    b.1.inRegexs = [.pre "f"] ∧ b.2 = .err .regex ∧ b.1.pieces = none := by decide +kernel
+
+/-- a rejected assignment changes nothing (hashes stay); duplicates in the new value are dropped;
+    assigning an item that is elsewhere in the list shortens the list; `IndexError` -/
+example :
+    let r1 := Rx.suffix ".tmp"; let r2 := Rx.lit "/sub/"
+    let s1 := run exEnv exS [.rx false (.setSlice 0 none [r1, r2, r1]), .generate]
+    s1.exRegexs = [r1, r2] ∧
+    apply exEnv s1 (.rx false (.setSlice 0 none [r2, .invalid "[a"])) = (s1, .err .regex) ∧
+    apply exEnv s1 (.rx false (.setIndex 2 r1)) = (s1, .err .index) ∧
+    (apply exEnv s1 (.rx false (.setIndex (-1) r1))).1.exRegexs = [r1] ∧
+    (apply exEnv s1 (.rx false (.setSlice 1 (some 1) [r2, .pre "x", r1]))).1.exRegexs
+      = [r1, r2, .pre "x"] := by decide +kernel
 
 end Torf.C09
